@@ -37,6 +37,9 @@ TRUSTED = [
     'exact instance premises (Section hypotheses, not discharged): qsqrt 0 = 0 and qsqrt x >= 0; atan 0 = 0; 0 <= atan x and '
     'atan x * k57 <= 90 for x >= 0; -180 <= atan2 y x * RADIAN <= 180; sin^2 + cos^2 = 1 for the hillshade sin/cos pairs; '
     '-1 <= cos <= 1',
+    'quarter-turn premises (Section hypotheses): sqrt, atan, atan2 respect == on Q; -180 <= atan2 y x * RADIAN <= 180; '
+    'atan2 x (-y) * RADIAN = atan2 y x * RADIAN + 90 or - 270 for (x,y) != (0,0); shown satisfiable by the Example '
+    'C08_quarter_premises_satisfiable (quadrant base angle)',
     'exact instance (option Q, None = NaN, x/0 = NaN) has no infinities and no rounding',
 ]
 ASSUMPTIONS = [
@@ -48,8 +51,9 @@ ASSUMPTIONS = [
     'hillshade and aspect ignore the cell size by design (documented formulas)',
 ]
 PARTIAL = [
-    'aspect quarter-turn (+-90 degrees mod 360) is not a Coq theorem (needs an atan2 quadrant identity): checked on the '
-    'implementation by the oracle; the Coq theorem covers the gradient map (dz_dx, dz_dy) -> (dz_dy, -dz_dx), slope magnitude and curvature',
+    'aspect / slope / curvature under np.rot90 are proved in the exact instance only (C08_aspect_quarter_turn, C08_rot90_raster, '
+    'for cells whose 3x3 window is finite, under the stated atan2 premises); the float-level statement is checked on the '
+    'implementation by the oracle (bit-exact for curvature and for slope on integer data, 2e-3 degrees for aspect)',
     'float-level offset invariance is false in general and not claimed; it is proved in the exact instance and checked bit-exactly '
     'on integer-valued data by the oracle',
     'hillshade trigonometric tail: within tolerance only (NumPy float32 loops are not libm)',
@@ -60,7 +64,9 @@ LEVEL_TEXT = ('Proved in Coq for all raster sizes and for EVERY arithmetic insta
               'function of that cell\'s 3x3 window and the cell size; changing one input cell changes the output only inside its 3x3 '
               'neighbourhood. Proved in the exact instance (option Q): adding a constant changes no gradient/curvature, a flat window '
               'gives slope 0 / aspect -1 / curvature 0, a quarter turn maps (dz_dx, dz_dy) to (dz_dy, -dz_dx) with slope magnitude '
-              'and curvature unchanged, and under explicit libm premises slope in [0,90], aspect in {-1} or [0,360], hillshade in '
+              'and curvature unchanged; for np.rot90 of a whole raster of any size (square cells) every interior cell maps to the '
+              'turned position, slope and curvature keep their values there and, through the compass-conversion branches, the '
+              'aspect becomes aspect - 90 mod 360 (flat stays -1) under an explicit atan2 quadrant premise; and under explicit libm premises slope in [0,90], aspect in {-1} or [0,360], hillshade in '
               '[0,1]. Correspondence (bit-exact for the Numba kernels, 8 float32 ulps for hillshade) and oracle only: float rounding, '
               'cell-size resolution against xarray objects, aspect +90 under rotation.')
 LEVEL_NOTE = ('kernels are written once over an arithmetic record; locality theorems are structural and hold for the executed float '
@@ -329,12 +335,17 @@ def gen_raster(rng, dt=None, shape=None, kind=None):
     return dt, kind, data
 
 
-def gen_geometry(rng, rows, cols, allow_mixed=True):
+INT_CS_DT = ('uint8', 'int32', 'float32', 'float64')      # raster dtypes that also get integer cell sizes (Numba specialisations)
+
+
+def gen_geometry(rng, rows, cols, allow_mixed=True, allow_int=True):
     """res attribute + coordinates.  An (int, float) cell-size pair is a separate Numba specialisation of slope._cpu per
     raster dtype (~0.5 s each), so mixed pairs are drawn only where [allow_mixed] (float64 rasters)"""
     u = rng.random()
     ints = [1, 2, 3, 10, 30]
     flts = [1.0, 0.5, 2.0, 0.25, 30.0, 3.7, 0.1, 12.5]
+    if not allow_int:
+        ints = [1.0, 2.0, 3.0, 10.0, 30.0]
     res = dict(kind='absent')
     if u < 0.18:
         res = dict(kind='scalar', v=rng.choice(ints + flts), form='scalar')
@@ -685,7 +696,7 @@ def new_case(rng, **kw):
     dt, kind, data = gen_raster(rng, **kw)
     rows = len(data)
     cols = len(data[0]) if rows else 0
-    res, xs, ys, coords = gen_geometry(rng, rows, cols, allow_mixed=(dt == 'float64'))
+    res, xs, ys, coords = gen_geometry(rng, rows, cols, allow_mixed=(dt == 'float64'), allow_int=(dt in INT_CS_DT))
     case = dict(dtype=dt, kind=kind, data=data, res=res, xs=xs, ys=ys, coords=coords)
     case['exact'] = is_exact_class(case)
     return case
@@ -696,13 +707,13 @@ def run(ctx, model=True):
     consts = source_constants(m)
     rng = ctx.rng
     pending = []
-    n = 200 if ctx.quick() else 12000
+    n = 130 if ctx.quick() else 12000
     cases = []
     # named hard cases: every dtype on a ramp and on ties, cx != cy
     for dt in INT_DT + ['float32', 'float64']:
         for kind in ['ramp', 'ties']:
             c = new_case(rng, dt=dt, shape=(4, 5), kind=kind)
-            c['res'] = dict(kind='pair', v=[2.0, 0.5] if kind == 'ramp' else [3, 1], form='tuple')
+            c['res'] = dict(kind='pair', v=[2.0, 0.5] if kind == 'ramp' else ([3, 1] if dt in INT_CS_DT else [3.0, 1.0]), form='tuple')
             cases.append(c)
     for _ in range(n):
         cases.append(new_case(rng))
